@@ -36,10 +36,10 @@ THEOREMS = ["C19_element_lookup_by_every_identifier", "C19_isotope_lookup_by_eve
             "C19_isotope_number_by_construction", "C19_wf_key_clauses_necessary",
             "C19_index_builders_refine_spec", "C19_rebuilding_indices_is_idempotent", "C19_lookups_are_case_blind",
             "C19_eq_characterised_by_fields", "C19_dir_order_is_a_sorted_permutation",
-            "C19_species_dict_with_deletion_is_a_finite_map"]
+            "C19_species_dict_with_deletion_is_a_finite_map", "C19_constructor_argument_policy"]
 
 HEADER = ("Require Import Cherab.Common.Qx.\nFrom Coq Require Import String.\n"
-          "Require Import Cherab.Model.C19_Registry Cherab.Model.C19_Check.\n")
+          "Require Import Cherab.Model.C19_Registry Cherab.Model.C19_Shape Cherab.Model.C19_Args Cherab.Model.C19_Check.\n")
 
 
 # ---------------------------------------------------------------------------------------------
@@ -498,6 +498,8 @@ def run(ctx):
         "Coq 8.16.1 kernel, vm_compute (no native_compute)",
         "harness/c19_translate.py (fail-closed translator of the module-level definitions of elements.pyx, 150 lines); "
         "what it cannot see (class bodies, index builders, lookup functions) is tied by the correspondence only",
+        "harness/c19_shape.py (fail-closed translator of the method bodies: removes `cdef` lines, <Type> casts and argument types, parses "
+        "with ast, 350 lines; the parts it does not translate are compared with a reference text kept in that file)",
         "harness/c19.py: case generator, identity -> attribute-name mapping, Coq literal printer; comparators in Model/C19_Check.v",
         "CPython: dir() is sorted, str.lower() on ASCII, str(int), the == / != dispatch between a class and its subclass, "
         "hash() of tuples of str/int/float respects their equality, dict slot matching = equal hash and (identical or ==); "
@@ -516,7 +518,7 @@ def run(ctx):
         "two Line objects built from the same arguments (distinct objects that are equal)",
     ]
     ctx.rebuild()
-    ctx.proofs("Properties.C19", THEOREMS, extra_modules=("Model.C19_Check", "Model.C19_Shape"))
+    ctx.proofs("Properties.C19", THEOREMS, extra_modules=("Model.C19_Check", "Model.C19_Shape", "Model.C19_Args"))
 
     import cherab
     assert list(cherab.__path__) == [REPO + "/cherab"], cherab.__path__
@@ -542,7 +544,7 @@ def run(ctx):
                                                os.path.join(REPO, "cherab", "openadas", "repository", "utility.py"))
         crow = commented_rows(src)
         allrows = sorted(set(crow + ([(s_["Z"], s_["name"], s_["symbol"]) for s_ in stmts if s_["kind"] == "element"] if stmts else [])))
-        rows_txt = ("Open Scope string_scope.\n(* every (Z, name, symbol) the source mentions, defined or commented out *)\n"
+        rows_txt = ("Open Scope string_scope.\nOpen Scope Z_scope.\n(* every (Z, name, symbol) the source mentions, defined or commented out *)\n"
                     "Definition src_rows : list (Z * string * string) := [%s].\n" % "; ".join(
                         "(%s, %s, %s)" % (zlit(z), q(n), q(sy)) for z, n, sy in allrows) +
                     "Lemma source_rows_are_periodic_rows : forallb (fun row => let '(z, n, s) := row in existsb (fun pr => "
@@ -634,8 +636,9 @@ def run(ctx):
             heavy = [i for i in range(n_cases) if meta[i]["kind"] == "dict_history"]
             light = [i for i in range(n_cases) if meta[i]["kind"] != "dict_history" and "ixe2" not in cases[i]]
             late = [i for i in range(n_cases) if "ixe2" in cases[i]]
-            groups = ([[i] for i in heavy] + [late[k:k + 500] for k in range(0, len(late), 500)]
-                      + [light[k:k + 500] for k in range(0, len(light), 500)])
+            per = 800 if quick else 500      # (cases cost 1-3 ms each; loading the libraries costs ~1 s per file)
+            groups = ([[i] for i in heavy] + [late[k:k + per] for k in range(0, len(late), per)]
+                      + [light[k:k + per] for k in range(0, len(light), per)])
             files = []
             for gi, ids in enumerate(groups):
                 txt = (HEADER + "Require Import Cherab.Gen.C19.State.\nOpen Scope string_scope.\nOpen Scope Z_scope.\n"
@@ -643,7 +646,13 @@ def run(ctx):
                        "Definition results : list bool := [\n  " + ";\n  ".join(cases[i] for i in ids) + "].\n"
                        "Eval vm_compute in (failing results).\n")
                 files.append((ctx.write_gen("cases_%03d.v" % gi, txt), ids))
-            res = coqc_many([p_tie] + ([p_shape] if p_shape else []) + [f for f, _ in files], timeout=900)
+            p_out = ctx.write_gen("outside.v", HEADER + "Require Import Cherab.Gen.C19.State.\nOpen Scope string_scope.\nOpen Scope Z_scope.\n"
+                                  "Definition outs : list bool := [\n  " + ";\n  ".join(ctx.c19_outside) + "].\n"
+                                  "Eval vm_compute in (Z.of_nat (List.length (filter (fun b => b) outs))).\n")
+            res = coqc_many([p_tie] + ([p_shape] if p_shape else []) + [p_out] + [f for f, _ in files], timeout=900)
+            v_out = parse_evals(res[p_out][1]) if res[p_out][0] else []
+            dist["init_policy:model_makes_no_prediction(Outside)"] = int(v_out[0]) if v_out else -1
+            dist["init_policy:calls"] = len(ctx.c19_outside)
             tie_ok = finish_tie(*res[p_tie])
             if p_shape:
                 tie_ok = finish_shape(*res[p_shape]) and tie_ok
@@ -714,6 +723,18 @@ def run(ctx):
         "tolerance": {"all discrete outputs": "exact", "weights": "bit for bit (exact rational of the double); additionally the "
                       "double is within 2^-50 relative of the exact decimal expression in the source"},
         "partial": [],
+        "compared_in_coq": {
+            "Gen/C19/Tie.v": "load table = Some rg; wf rg = true (5 clauses, all species); every wf-dependent theorem instantiated with rg",
+            "Gen/C19/Shape.v": "17 lemmas by reflexivity, for all arguments: hash tuples, ==/!= chains (Element, Isotope, Line), index key "
+                               "expressions of both builders, the three lookup key expressions, constructor signatures and bodies "
+                               "(incl. super().__init__ arguments) as translated from the current source = the model's functions; control flow, "
+                               "guards, type tests, __repr__, utility.py compared statement by statement with the reference text; every "
+                               "(Z, name, symbol) in the source, commented-out rows included, is a row of the model's periodic table",
+            "cases_*.v": "exact comparison of: exported fields (weights bit for bit), returned object of every lookup, ==, !=, hash equality, "
+                         "Line construction / ==, !=, hash equality, repr, encode_transition, valid_charge, every step of a dict history, "
+                         "object built or exception kind (ValueError / TypeError / OverflowError / AttributeError) for every constructor "
+                         "and helper argument form",
+            "tolerances": "none: every comparison is exact (doubles as exact rationals)"},
         "search": {"failures": len(fails), "pairs_compared": len(impl.exports) * (len(impl.exports) - 1) // 2},
     })
     ctx.coverage["samples"] = samples
@@ -1084,6 +1105,118 @@ def build_cases(ctx, impl, stmts, rows, rng, quick, dist):
             "check_encode_transition [%s] %s" % ("; ".join("(TInt %s)" % zlit(x) if type(x) is int else "(TStr %s)" % q(x) for x in ent),
                                                  "None" if got is None else "(Some %s)" % q(got)),
             call="encode_transition(%r)" % (arg,), got=got)
+
+    # -- argument-validation policy of the constructors and helpers (Model/C19_Args.v): every argument position is fed
+    #    values of every kind; the model predicts the object that is built or the kind of exception -------------------------
+    EXC = {ValueError: "ExcValue", TypeError: "ExcType", OverflowError: "ExcOverflow", AttributeError: "ExcAttribute"}
+
+    def pv(x):
+        """Python value -> (parg literal); species are passed by reference tuples ('attr', ..) / ('elem', ..)"""
+        if isinstance(x, tuple) and x and x[0] in ("attr", "elem", "iso"):
+            return "(PRef %s)" % sref(x)
+        if type(x) is str:
+            return "(PA (PStr %s))" % q(x)
+        if isinstance(x, str):
+            return "(PA (PStrSub %s))" % q(str(x))
+        if type(x) is bool or isinstance(x, np.bool_):
+            return "(PA (PBool %s))" % boolc(bool(x))
+        if isinstance(x, (int, np.integer)):
+            return "(PA (PInt %s))" % zlit(int(x))
+        if isinstance(x, (float, np.floating)):
+            f = float(x)
+            return "(PA PNan)" if f != f else ("(PA PInf)" if f in (math.inf, -math.inf) else "(PA (PFloat %s))" % qlit(f))
+        if x is None:
+            return "(PA PNone)"
+        if type(x) is tuple and all(type(t) in (int, str) for t in x):
+            return "(PA (PTuple %s))" % tlist(x)
+        if type(x) is list and all(type(t) in (int, str) for t in x):
+            return "(PA (PList %s))" % tlist(x)
+        return "(PA POther)"
+
+    def real(x):
+        return impl.build(x) if isinstance(x, tuple) and x and x[0] in ("attr", "elem", "iso") else x
+
+    el_refs = [("attr", n) for n, _ in rng.sample(impl.elements, 6)]
+    iso_refs = [("attr", n) for n, _ in rng.sample(impl.isotopes, 4)]
+    pools = {
+        "str": ["x", "Xy", "", np.str_("x"), 5, b"x", 1.5, ["x"], ("x",)],
+        "int": [0, 1, 3, True, False, 2.9, -2.9, -0.0, 0.5, np.int64(7), np.int32(-4), np.float64(2.5), np.float32(7.75), None, "3",
+                2 ** 31 - 1, 2 ** 31, -2 ** 31 + 1, -2 ** 31 - 1, 2 ** 64, 1e30, -1e30, math.inf, -math.inf, math.nan, b"1", (1,), [1]],
+        "double": [0, 1, True, 2.5, -0.0, np.float32(1.5), np.int64(3), None, "1.0", 2 ** 1024, -2 ** 1030, 2 ** 53 - 1, -(2 ** 52), 5e-324, [1.0]],
+        "element": el_refs + [("elem", "x", "X", 5, 1.0), "h", 1, 2.5, ("h",)],
+        "tuple": [(3, 2), (), ("a", "b"), (1, 2, 3), [3, 2], "ab", 5, 2.5],
+    }
+    good = {"str": ["x", "Sy"], "int": [3, 1, 0], "double": [2.5, 1], "element": el_refs, "tuple": [(3, 2), ("a", "b")]}
+    sigs = {0: ("Element", impl.Element, ["str", "str", "int", "double"]),
+            1: ("Isotope", impl.Isotope, ["str", "str", "element", "int", "double"]),
+            2: ("Line", impl.Line, ["element", "int", "tuple"])}
+
+    def init_case(cls, args):
+        cname, ctor, _ = sigs[cls]
+        try:
+            o = ctor(*[real(a) for a in args])
+        except tuple(EXC) as e:
+            got, shown = "(BRaise %s)" % EXC[type(e)], type(e).__name__
+        else:
+            def find(obj):
+                for a in args:
+                    if isinstance(a, tuple) and a and a[0] in ("attr", "elem", "iso") and (real(a) is obj if a[0] == "attr" else real(a) == obj):
+                        return a
+                return None
+            if cls == 0:
+                got = "(BElement %s %s %s %s)" % (q(o.name), q(o.symbol), zlit(o.atomic_number), qlit(o.atomic_weight))
+            elif cls == 1:
+                er = find(o.element)
+                got = "(BIsotope %s %s %s %s %s %s)" % (q(o.name), q(o.symbol), zlit(o.atomic_number), qlit(o.atomic_weight),
+                                                        zlit(o.mass_number), sref(er) if er else "(RAttr \"<?>\")")
+            else:
+                er = find(o.element)
+                got = "(BLine %s %s %s)" % (sref(er) if er else "(RAttr \"<?>\")", zlit(o.charge), tlist(o.transition))
+            shown = repr(o)
+        txt = "[%s]" % "; ".join(pv(a) for a in args)
+        add("init_policy:" + cname, "check_init en %s %s %s" % (zlit(cls), txt, got), call="%s(%s)" % (cname, ", ".join(repr(a) for a in args)), got=shown)
+        outside_exprs.append("init_outside en %s %s" % (zlit(cls), txt))
+
+    n_policy = 0
+    outside_exprs = ctx.c19_outside = []
+    for cls, (cname, ctor, sig) in sigs.items():
+        for pos, kind in enumerate(sig):
+            vals = pools[kind] + (iso_refs if kind == "element" else [])
+            for v in (vals if not quick else rng.sample(vals, min(len(vals), 7))):
+                args = [rng.choice(good[k]) for k in sig]
+                args[pos] = v
+                if cls == 2 and pos != 1:
+                    args[1] = 0
+                init_case(cls, args)
+                n_policy += 1
+        for _ in range(12 if quick else 150):          # two or three unusual arguments at once (order of the checks), wrong arity
+            args = [rng.choice(pools[k] + good[k] * 3) for k in sig]
+            r_ = rng.random()
+            if r_ < 0.15:
+                args = args[:-1]
+            elif r_ < 0.3:
+                args = args + [rng.choice([1, "x", None])]
+            init_case(cls, args)
+    # helpers
+    for _ in range(40 if quick else 600):
+        e_ = rng.choice(el_refs + iso_refs + [("elem", "x", "X", 0, 1.0), "h", 1, None])
+        c_ = rng.choice(pools["int"])
+        try:
+            r = impl.utility.valid_charge(real(e_), c_)
+            got, shown = "(HBool %s)" % boolc(bool(r)), bool(r)
+        except tuple(EXC) as e:
+            got, shown = "(HRaise %s)" % EXC[type(e)], type(e).__name__
+        add("helper_policy:valid_charge", "check_valid_charge_py en %s %s %s" % (pv(e_), pv(c_), got),
+            call="valid_charge(%r, %r)" % (e_, c_), got=shown)
+    for t_ in pools["tuple"] + [("A", 2), [9, 10], ("99", 100), None, True, np.str_("ab"), ("h",), "abc", "", el_refs[0]]:
+        try:
+            r = impl.utility.encode_transition(real(t_))
+            got, shown = "(HStr %s)" % q(r), r
+        except tuple(EXC) as e:
+            got, shown = "(HRaise %s)" % EXC[type(e)], type(e).__name__
+        lit = pv(t_)
+        lit = lit[4:-1] if lit.startswith("(PA ") else "(PSpecies (SE (mkElement \"\" \"\" 0 0)))"
+        add("helper_policy:encode_transition", "check_encode_py %s %s" % (lit, got), call="encode_transition(%r)" % (t_,), got=shown)
 
     # -- dictionaries: ONE live dict (and one live set) driven through a history of assignments, re-assignments of the same
     #    value, deletions, re-insertions and reads, every step compared with the model --------------------------------------
